@@ -175,7 +175,11 @@ def run(chk):
         got = {}
         for l in (("in", "out") if loc != "line" else ("line",)):
             try:
-                res = impl.quiet(lambda: mk(l).get_constraint_indices(all_sensors=ranking.copy(), info=info))
+                obj = mk(l)
+                if rng.random() < 0.6:
+                    # the same shape object is asked first about another ranking of the same length (call sequences)
+                    impl.quiet(lambda: obj.get_constraint_indices(all_sensors=rng.permutation(ranking), info=info))
+                res = impl.quiet(lambda: obj.get_constraint_indices(all_sensors=ranking.copy(), info=info))
                 got[l] = [int(i) for i in res[0]]
             except Exception as e:
                 got[l] = "EXC " + type(e).__name__ + ": " + str(e)[:80]
